@@ -2,6 +2,7 @@ import S3V.Thm.Body
 import S3V.Thm.MultipartFile
 import S3V.Thm.MultipartSpec
 import S3V.Thm.MultipartParse
+import S3V.Thm.MultipartCompose
 /-!
 # C09 — results do not depend on how the request body is framed or when frames arrive
 
@@ -109,5 +110,97 @@ theorem C09d_filestream_framing_independent (b rest : Bytes) (fr₁ fr₂ : List
   refine ⟨h1.1, ?_⟩
   cases h3 : (fileStream b rest fr₁).2 <;> cases h4 : (fileStream b rest fr₂).2 <;>
     simp [h3, h4, FTerm.toSpec] at h1 ⊢
+
+/-- clause (d): where `try_parse` is NOT stable (`Findings/C09.lean`) it still never turns a failure into
+    a success: `InvalidFormat` on a buffer means no longer buffer parses -/
+theorem C09d_try_parse_invalid_never_parsed (b p q : Bytes) (hp : tryParse b p = .invalid) (hpq : p <+: q) :
+    ∀ f n c s, tryParse b q ≠ .parsed f n c s := by
+  obtain ⟨t, rfl⟩ := hpq
+  exact tryParse_invalid_ext b p t hp
+
+/-- clause (d), composition, general form (transport errors included): the observable outcome of
+    `transform_multipart` + draining the file stream — form fields, file name, content type, delivered
+    bytes, and how it ends — is the single-frame semantics of (data before the first error, error flag):
+    one `try_parse` of the whole data, then the bytes before the first `CRLF--boundary` after the part
+    headers. No hypothesis on the framing. -/
+theorem C09d_multipart_refines_single_frame (b : Bytes) (frames : List (Option Bytes)) :
+    observe (run b frames) = specOutcome (oneShot b) b (dataBeforeError frames) (hasError frames) :=
+  run_spec b frames
+
+/-- … in particular the run on ANY framing equals the run on the single frame holding the concatenation -/
+theorem C09d_multipart_equals_single_frame_run (b : Bytes) (frames : List Bytes) :
+    observe (run b (frames.map some)) = observe (run b [some frames.flatten]) := by
+  rw [run_spec, run_spec, dataBeforeError_map_some, hasError_map_some]
+  simp [dataBeforeError, hasError]
+
+/-- clause (d), composition with transport errors: same data before the error and same error flag give
+    the same observable outcome -/
+theorem C09d_multipart_framing_independent_err (b : Bytes) (fr₁ fr₂ : List (Option Bytes))
+    (hd : dataBeforeError fr₁ = dataBeforeError fr₂) (he : hasError fr₁ = hasError fr₂) :
+    observe (run b fr₁) = observe (run b fr₂) := by
+  rw [run_spec, run_spec, hd, he]
+
+/-- clause (d), composition as planned: two error-free framings of the same bytes give the same parsed
+    form (fields, file name, content type), the same delivered file bytes and the same exact terminal
+    (`ok | incomplete | invalidFormat`) -/
+theorem C09d_multipart_framing_independent (b : Bytes) (frames₁ frames₂ : List Bytes)
+    (h : frames₁.flatten = frames₂.flatten) :
+    (run b (frames₁.map some)).form = (run b (frames₂.map some)).form ∧
+    (run b (frames₁.map some)).chunks.flatten = (run b (frames₂.map some)).chunks.flatten ∧
+    (run b (frames₁.map some)).terminal = (run b (frames₂.map some)).terminal := by
+  have hobs : observe (run b (frames₁.map some)) = observe (run b (frames₂.map some)) := by
+    apply C09d_multipart_framing_independent_err
+    · rw [dataBeforeError_map_some, dataBeforeError_map_some, h]
+    · rw [hasError_map_some, hasError_map_some]
+  have e1 := hasError_map_some frames₁
+  have e2 := hasError_map_some frames₂
+  cases h1 : (run b (frames₁.map some)).form with
+  | none =>
+    cases h2 : (run b (frames₂.map some)).form with
+    | none =>
+      refine ⟨rfl, ?_, ?_⟩
+      · rw [run_form_none_chunks b _ h1, run_form_none_chunks b _ h2]
+      · rw [run_form_none_terminal b _ e1 h1, run_form_none_terminal b _ e2 h2]
+    | some f2 => simp [observe, h1, h2] at hobs
+  | some f1 =>
+    cases h2 : (run b (frames₂.map some)).form with
+    | none => simp [observe, h1, h2] at hobs
+    | some f2 =>
+      simp only [observe, h1, h2, Obs.mk.injEq, Option.some.injEq] at hobs
+      exact ⟨by rw [hobs.1], hobs.2.1, Terminal.toEnd_injective hobs.2.2⟩
+
+/-- model hygiene for clause (d): the fuel given to the two `loop`s of the model (`try_parse`'s part loop,
+    `split_to`) never runs out — any fuel above the slice length gives the same answer, so their
+    `fuel = 0` branches are dead and `tryParse` mirrors the unbounded Rust loops -/
+theorem C09d_fuel_irrelevant (b s : Bytes) (fields : List (Bytes × Bytes)) (n : Nat) (h : s.length < n) :
+    partsLoop b n s fields = partsLoop b (s.length + 1) s fields ∧
+    splitToLoop (dashBoundary b) s n s 0 = splitTo (dashBoundary b) s :=
+  ⟨partsLoop_fuel b n _ s fields h (Nat.lt_succ_self _),
+   splitToLoop_fuel _ s n _ s 0 h (Nat.lt_succ_self _)⟩
+
+/-! ## non-vacuity
+
+The form of the repaired finding (boundary `9431149156168`, field `key=acl`, file `MyFilename.jpg`,
+`image/jpg`, content `file_content`), cut after 5 bytes — the framing that used to be rejected. -/
+
+def exBoundary : Bytes := [57, 52, 51, 49, 49, 52, 57, 49, 53, 54, 49, 54, 56]
+def exBody : Bytes := [45, 45, 57, 52, 51, 49, 49, 52, 57, 49, 53, 54, 49, 54, 56, 13, 10, 67, 111, 110, 116, 101, 110, 116, 45, 68, 105, 115, 112, 111, 115, 105, 116, 105, 111, 110, 58, 32, 102, 111, 114, 109, 45, 100, 97, 116, 97, 59, 32, 110, 97, 109, 101, 61, 34, 107, 101, 121, 34, 13, 10, 13, 10, 97, 99, 108, 13, 10, 45, 45, 57, 52, 51, 49, 49, 52, 57, 49, 53, 54, 49, 54, 56, 13, 10, 67, 111, 110, 116, 101, 110, 116, 45, 68, 105, 115, 112, 111, 115, 105, 116, 105, 111, 110, 58, 32, 102, 111, 114, 109, 45, 100, 97, 116, 97, 59, 32, 110, 97, 109, 101, 61, 34, 102, 105, 108, 101, 34, 59, 32, 102, 105, 108, 101, 110, 97, 109, 101, 61, 34, 77, 121, 70, 105, 108, 101, 110, 97, 109, 101, 46, 106, 112, 103, 34, 13, 10, 67, 111, 110, 116, 101, 110, 116, 45, 84, 121, 112, 101, 58, 32, 105, 109, 97, 103, 101, 47, 106, 112, 103, 13, 10, 13, 10, 102, 105, 108, 101, 95, 99, 111, 110, 116, 101, 110, 116, 13, 10, 45, 45, 57, 52, 51, 49, 49, 52, 57, 49, 53, 54, 49, 54, 56, 45, 45, 13, 10]
+
+/-- hypotheses of `C09d_try_parse_prefix_stable_partial` / `_parsed_stable`: the whole body is a
+    definitive success and does not end in a bare delimiter -/
+example : tryParse exBoundary exBody =
+    .parsed [([107, 101, 121], [97, 99, 108])] [77, 121, 70, 105, 108, 101, 110, 97, 109, 101, 46, 106, 112, 103] [105, 109, 97, 103, 101, 47, 106, 112, 103] 184 := by decide +kernel
+example : endsInBareDelimiter exBoundary exBody = false := by decide +kernel
+/-- … while its first five bytes only ask for more data (the repaired behaviour) -/
+example : tryParse exBoundary (exBody.take 5) = .needMore := by decide +kernel
+/-- hypothesis of `C09d_try_parse_invalid_never_parsed`: a wrong first boundary line is a definitive failure -/
+example : tryParse exBoundary ([45, 45, 57, 52, 51, 120] ++ [13, 10]) = .invalid := by decide +kernel
+/-- hypothesis and conclusion of `C09d_multipart_framing_independent` on the two framings -/
+example : [exBody.take 5, exBody.drop 5].flatten = [exBody].flatten := by decide +kernel
+example : (run exBoundary ([exBody.take 5, exBody.drop 5].map some)).chunks.flatten = [102, 105, 108, 101, 95, 99, 111, 110, 116, 101, 110, 116] ∧
+    (run exBoundary ([exBody.take 5, exBody.drop 5].map some)).terminal = .ok := by decide +kernel
+/-- hypotheses of the clause (a)/(b) independence theorems: a body in one and in three frames, one empty -/
+example : dataBeforeError [some [1, 2, 3]] = dataBeforeError [some [1], some [], some [2, 3]] ∧
+    hasError [some [1, 2, 3]] = hasError [some [1], some [], some [2, 3]] := by decide
 
 end S3V.C09
